@@ -26,6 +26,8 @@ def gen_cases(seed, tier, n):
     profs = ["stack_tiny", "stack_tiny", "stack_nozero", "default"]
     for i in range(n):
         c = tracegen.gen_case(seed, i, tracegen.PROFILES[profs[i % len(profs)]])
+        if i % 150 == 9:
+            c = tracegen.gen_deep_case(seed, i)      # 1100 levels of nesting ("any depth")
         c["params"] = {}
         if i % 6 == 5:
             _mixed_last_group(c, random.Random(seed * 104729 + i))
@@ -33,6 +35,8 @@ def gen_cases(seed, tier, n):
             fw.set_quarter_us(c)           # quarter-microsecond resolution (framework.resolution)
         if i % 7 == 3:
             tracegen.add_second_process(c, random.Random(seed * 15485863 + i))     # two processes, same thread id
+        if i % 9 == 4:
+            tracegen.huge_thread_ids(c)                                            # pthread-style thread ids far beyond 2**31
         out.append(c)
     return out
 
@@ -140,7 +144,9 @@ def _run_impl(case, d):
 def coq_term(case, impl):
     items = []
     for key, res in sorted(impl["threads"].items()):
-        rows = [{"idx": i, "ts": t, "dur": d_, "pid": 0, "tid": 0, "stream": -1, "corr": -1, "icorr": -1, "iter": -1, "name": "e", "cat": "c"} for i, t, d_ in res["evs"]]
+        # a thread of a deep-nesting case is decided by the property check on the outputs alone (the model's depth computation is cubic)
+        rows = [] if len(res["evs"]) > 600 else \
+            [{"idx": i, "ts": t, "dur": d_, "pid": 0, "tid": 0, "stream": -1, "corr": -1, "icorr": -1, "iter": -1, "name": "e", "cat": "c"} for i, t, d_ in res["evs"]]
         items.append(f"encode_C03 {fw.evl(rows)}")
     return "[" + ";\n ".join(items) + "]"
 
@@ -192,7 +198,7 @@ def compare(case, impl, model):
             if which == "new" and res.get("new_extra_all"):
                 disc.append(f"thread {key}: new builder created nodes for host events of other threads: {res['new_extra_all'][:5]}")
             disc += [f"thread {key}: " + b for b in spec_check(evs, got, which + " builder")[:3]]
-            if not haszero:
+            if not haszero and len(evs) <= 600:
                 want = {r[0]: [r[1], r[2]] for r in mm}
                 if got != want:
                     diff = [(k, got.get(k), want.get(k)) for k in sorted(set(got) | set(want)) if got.get(k) != want.get(k)][:4]
@@ -247,9 +253,12 @@ def _touching_zero(evs):
 
 
 def classify(case, impl, model, disc):
-    # known finding D2: a zero-duration event at an instant where one positive-duration event ends and another begins
     if not disc:
         return None
+    # known finding: the new builder's recursive passes exceed Python's recursion limit on a thread nested about 1000 levels deep
+    if case.get("deep", 0) >= 990 and all("RecursionError" in dline and ("new builder" in dline or "new CallGraph" in dline) for dline in disc):
+        return "C03-new-builder-recursion-limit"
+    # known finding D2: a zero-duration event at an instant where one positive-duration event ends and another begins
     keys = set()
     for dline in disc:
         if not dline.startswith("thread "):
